@@ -10,18 +10,22 @@ CONSTANTS Rng, MaxN, Bigs, Forms      \* Bigs: BOOLEAN; Forms: "plain" | "all"
 Small == (0 - Rng)..Rng
 BigSet == IF Bigs THEN {BigP31, BigP63, BigM31, BigM63a, BigM63} ELSE {}
 Bound == [v : Small \cup BigSet, o : {FALSE}] \cup {[v |-> 0, o |-> TRUE]}
-FormSet == IF Forms = "all" THEN {"plain", "union", "rec", "index"} ELSE {"plain", "index"}
+FormSet == IF Forms = "all" THEN {"plain", "union", "rec", "index", "nested"} ELSE {"plain", "index"}
+\* "nested": `$[s:e:c][inner]` on an array of rows -- the index list of the outer subscript is still being consumed
+\* while the inner one computes its own
+Inners == << Sl(1, FALSE, 3, FALSE, 1, TRUE), Sl(0, TRUE, 0, TRUE, 2, FALSE), Sl(-2, FALSE, 0, TRUE, 1, TRUE), Sl(0, TRUE, 0, TRUE, -1, FALSE), Idx(2) >>
 
-VARIABLES n, sub, form
-vars == <<n, sub, form>>
+VARIABLES n, sub, form, inner
+vars == <<n, sub, form, inner>>
 NoSub == Idx(0)
-Init == n \in 0..MaxN /\ sub = NoSub /\ form = "none"
+Init == n \in 0..MaxN /\ sub = NoSub /\ form = "none" /\ inner = 0
 Next == /\ form = "none"
         /\ UNCHANGED n
         /\ \E f \in FormSet :
              /\ form' = f
              /\ IF f = "index" THEN \E b \in Bound : ~b.o /\ sub' = Idx(b.v)
                 ELSE \E s \in Bound, e \in Bound, c \in Bound : sub' = Sl(s.v, s.o, e.v, e.o, c.v, c.o)
+             /\ IF f = "nested" THEN inner' \in 1..Len(Inners) ELSE inner' = 0
 Spec == Init /\ [][Next]_vars
 
 TheDoc == Arr([i \in 1..n |-> Num(1000 * (i - 1))])
@@ -29,8 +33,10 @@ ThePath ==
   CASE form \in {"plain", "index"} -> Path("$", <<Un(<<sub>>)>>, <<>>)
     [] form = "union" -> Path("$", <<Un(<<sub, Idx(0), sub>>)>>, <<>>)
     [] form = "rec" -> Path("$", <<Rec, Un(<<sub>>)>>, <<>>)
+    [] form = "nested" -> Path("$", <<Un(<<sub>>), Un(<<Inners[inner]>>)>>, <<>>)
     [] OTHER -> Path("$", <<>>, <<>>)
-Doc == IF form = "rec" THEN Arr(<<TheDoc, Oa(TheDoc)>>) ELSE TheDoc
+Rows == Arr([i \in 1..n |-> Arr([j \in 1..3 |-> Num(1000 * (10 * i + j))])])
+Doc == IF form = "rec" THEN Arr(<<TheDoc, Oa(TheDoc)>>) ELSE IF form = "nested" THEN Rows ELSE TheDoc
 
 LawMech == (form # "none" /\ sub.k = "slice") => MechIsPython(sub, n) /\ InRange(sub, n) /\ Monotone(sub, n)
 LawIndex == (form = "index") => LET r == IndexOf(sub.n, n) IN
